@@ -1,16 +1,22 @@
 import Revm.Util.Word
 /-! Code-shaped model of the blob-fee helpers of `crates/primitives/src/utilities.rs`
 (`calc_excess_blob_gas`, `calc_blob_gasprice`, `fake_exponential`) and of
-`BlobExcessGasAndPrice::{new, from_parent_and_target}` (`env.rs`).
+`BlobExcessGasAndPrice::{new, from_parent_and_target}` (`env.rs`), **as repaired** by the commit
+"fix: blob fee helpers wrapped silently on large excess blob gas":
 
-Rust integer semantics: the arithmetic is plain `+ * /` on `u64` / `u128`. In the **release** profile
-(the profile the harness is built with; `overflow-checks` off) `+` and `*` wrap modulo 2^64 / 2^128; in
-the **debug** profile (`overflow-checks` on) they panic. Both are modelled: `wrap = true` is the release
-behaviour, `wrap = false` the debug behaviour. Division by zero panics in both.
+* `fake_exponential` keeps its intermediates in ruint `U256`; `output + accum` and `accum * numerator`
+  are `checked_add` / `checked_mul` and the function returns `u128::MAX` when one of them does not
+  fit in 256 bits; `factor * denominator`, `denominator * i` and `i += 1` are ruint's wrapping
+  operators; the final quotient goes through `u128::try_from(..).unwrap_or(u128::MAX)`.
+* `calc_excess_blob_gas` adds in `u128`, `saturating_sub`s the target and converts with
+  `u64::try_from(..).unwrap_or(u64::MAX)`.
 
-The Rust `while` loop has no bound; the model takes `fuel` (number of loop iterations allowed) and
-answers `none` when it runs out, never a default value. `fuel_mono` (Proofs) shows the answer does not
-depend on the fuel once it is `some`. -/
+There is one profile now (ruint operators behave the same in debug and release; the `u128` addition
+of two `u64` values cannot overflow). The only panics left are `assert_ne!(denominator, 0)` and
+ruint's division by zero (modelled, proved unreachable for a non-zero denominator).
+
+The Rust `while` loop has no bound; the model takes `fuel` (iterations allowed) and answers `none`
+when it runs out, never a default value. The answer is proved independent of the fuel. -/
 namespace Revm.Model.Blob
 open Revm
 
@@ -24,57 +30,48 @@ def MIN_BLOB_GASPRICE : Nat := 1
 def BLOB_BASE_FEE_UPDATE_FRACTION_CANCUN : Nat := 3338477
 def BLOB_BASE_FEE_UPDATE_FRACTION_ELECTRA : Nat := 5007716
 
-/-- `a + b` on `u64`: wraps (release) or panics (debug) -/
-def add64 (wrap : Bool) (a b : Nat) : Res Nat :=
-  if a + b < U64 then .ok (a + b) else if wrap then .ok ((a + b) % U64) else .panic
+def U128_MAX : Nat := U128 - 1
+def U64_MAX : Nat := U64 - 1
 
-/-- `calc_excess_blob_gas`: `(excess + used).saturating_sub(target)` -/
-def calcExcessBlobGas (wrap : Bool) (parentExcess parentUsed parentTarget : Nat) : Res Nat :=
-  match add64 wrap parentExcess parentUsed with
-  | .ok s => .ok (U64ops.saturatingSub s parentTarget)
-  | .panic => .panic
+/-- `calc_excess_blob_gas`:
+`let sum = excess as u128 + used as u128; u64::try_from(sum.saturating_sub(target as u128)).unwrap_or(u64::MAX)` -/
+def calcExcessBlobGas (parentExcess parentUsed parentTarget : Nat) : Nat :=
+  let sum := (parentExcess + parentUsed) % U128
+  let diff := sum - parentTarget
+  if diff < U64 then diff else U64_MAX
 
-/-- `a + b` on `u128` -/
-def add128 (wrap : Bool) (a b : Nat) : Res Nat :=
-  if a + b < U128 then .ok (a + b) else if wrap then .ok ((a + b) % U128) else .panic
-/-- `a * b` on `u128` -/
-def mul128 (wrap : Bool) (a b : Nat) : Res Nat :=
-  if a * b < U128 then .ok (a * b) else if wrap then .ok ((a * b) % U128) else .panic
+/-- `u128::try_from(q).unwrap_or(u128::MAX)` -/
+def toU128Sat (q : Nat) : Nat := if q < U128 then q else U128_MAX
 
-/-- the `while numerator_accum > 0 { … }` loop of `fake_exponential` followed by
-`output / denominator`; all variables are `u128`. Order of the operations as in the Rust body:
-`output += accum; accum = (accum * numerator) / (denominator * i); i += 1`. -/
-def fakeExpLoop (wrap : Bool) : (fuel i output accum numerator denominator : Nat) → Option (Res Nat)
+/-- the `while !numerator_accum.is_zero() { … }` loop of `fake_exponential` followed by
+`u128::try_from(output / denominator).unwrap_or(u128::MAX)`; all variables are `U256`. Order of the
+operations as in the Rust body: `checked_add`, `checked_mul`, `denominator * i` (wrapping),
+division (ruint panics on a zero divisor), `i += 1` (wrapping). -/
+def fakeExpLoop : (fuel i output accum numerator denominator : Nat) → Option (Res Nat)
   | 0, _, _, _, _, _ => none
   | fuel+1, i, output, accum, numerator, denominator =>
     if accum > 0 then
-      match add128 wrap output accum with
-      | .panic => some .panic
-      | .ok output' =>
-        match mul128 wrap accum numerator with
-        | .panic => some .panic
-        | .ok prod =>
-          match mul128 wrap denominator i with
-          | .panic => some .panic
-          | .ok den =>
-            if den = 0 then some .panic else
-            match add128 wrap i 1 with
-            | .panic => some .panic
-            | .ok i' => fakeExpLoop wrap fuel i' output' (prod / den) numerator denominator
-    else some (.ok (output / denominator))
+      match U256.checkedAdd output accum with
+      | none => some (.ok U128_MAX)
+      | some sum =>
+        match U256.checkedMul accum numerator with
+        | none => some (.ok U128_MAX)
+        | some product =>
+          let den := U256.wmul denominator i
+          if den = 0 then some .panic else
+          fakeExpLoop fuel (U256.wadd i 1) sum (product / den) numerator denominator
+    else
+      if denominator = 0 then some .panic else some (.ok (toU128Sat (output / denominator)))
 
 /-- `fake_exponential(factor: u64, numerator: u64, denominator: u64) -> u128`;
-`assert_ne!(denominator, 0)` panics first. `factor * denominator` is a product of two values
-below 2^64 taken in `u128`, which cannot overflow; it is still routed through `mul128`. -/
-def fakeExponential (wrap : Bool) (fuel factor numerator denominator : Nat) : Option (Res Nat) :=
+`assert_ne!(denominator, 0)` panics first; `factor * denominator` is ruint's wrapping product -/
+def fakeExponential (fuel factor numerator denominator : Nat) : Option (Res Nat) :=
   if denominator = 0 then some .panic else
-  match mul128 wrap factor denominator with
-  | .panic => some .panic
-  | .ok acc0 => fakeExpLoop wrap fuel 1 0 acc0 numerator denominator
+  fakeExpLoop fuel 1 0 (U256.wmul factor denominator) numerator denominator
 
 /-- `calc_blob_gasprice(excess_blob_gas, is_prague)` -/
-def calcBlobGasprice (wrap : Bool) (fuel excess : Nat) (isPrague : Bool) : Option (Res Nat) :=
-  fakeExponential wrap fuel MIN_BLOB_GASPRICE excess
+def calcBlobGasprice (fuel excess : Nat) (isPrague : Bool) : Option (Res Nat) :=
+  fakeExponential fuel MIN_BLOB_GASPRICE excess
     (if isPrague then BLOB_BASE_FEE_UPDATE_FRACTION_ELECTRA else BLOB_BASE_FEE_UPDATE_FRACTION_CANCUN)
 
 /-- `BlobExcessGasAndPrice { excess_blob_gas, blob_gasprice }` -/
@@ -84,18 +81,16 @@ structure BlobExcessGasAndPrice where
   deriving DecidableEq, Repr
 
 /-- `BlobExcessGasAndPrice::new` -/
-def BlobExcessGasAndPrice.new (wrap : Bool) (fuel excess : Nat) (isPrague : Bool) :
+def BlobExcessGasAndPrice.new (fuel excess : Nat) (isPrague : Bool) :
     Option (Res BlobExcessGasAndPrice) :=
-  match calcBlobGasprice wrap fuel excess isPrague with
+  match calcBlobGasprice fuel excess isPrague with
   | none => none
   | some .panic => some .panic
   | some (.ok p) => some (.ok ⟨excess, p⟩)
 
 /-- `BlobExcessGasAndPrice::from_parent_and_target` -/
-def BlobExcessGasAndPrice.fromParentAndTarget (wrap : Bool) (fuel pe pu pt : Nat) (isPrague : Bool) :
+def BlobExcessGasAndPrice.fromParentAndTarget (fuel pe pu pt : Nat) (isPrague : Bool) :
     Option (Res BlobExcessGasAndPrice) :=
-  match calcExcessBlobGas wrap pe pu pt with
-  | .panic => some .panic
-  | .ok e => BlobExcessGasAndPrice.new wrap fuel e isPrague
+  BlobExcessGasAndPrice.new fuel (calcExcessBlobGas pe pu pt) isPrague
 
 end Revm.Model.Blob
